@@ -669,7 +669,14 @@ func (ie IndexExpression) PrettyPrint(out *PrintState) *PrintState {
 		out.Print(ie.Literal())
 	}
 	out.ExpressionPrecedence = LOWEST
+	dotParen := ie.Token.Type() == token.DOT && dotIndexNeedsParen(ie.Index)
+	if dotParen {
+		out.Print("(") // a.(b+c) isn't a.b+c
+	}
 	ie.Index.PrettyPrint(out)
+	if dotParen {
+		out.Print(")")
+	}
 	if ie.Token.Type() == token.LBRACKET {
 		out.Print("]")
 	}
@@ -678,6 +685,15 @@ func (ie IndexExpression) PrettyPrint(out *PrintState) *PrintState {
 	}
 	out.ExpressionPrecedence = oldExpressionPrecedence
 	return out
+}
+
+// What follows a dot is a single operand: anything else than a name, literal or name++ was in parentheses.
+func dotIndexNeedsParen(index Node) bool {
+	switch index.(type) {
+	case *Identifier, *StringLiteral, *IntegerLiteral, *FloatLiteral, *PostfixExpression:
+		return false
+	}
+	return true
 }
 
 // A dot next to a number (accepted by the parser even if it can't evaluate) must not be glued to it.
